@@ -50,7 +50,7 @@ pub fn chains(v: &mut Vec<Shape>) {
         apply!(flat_map, apply!(flat_map, apply!(flat_map, a.u8s(), g.p), g.q), g.p));
     shape2!(v, "3/flatten(map(zip(a,b)))", any, "flatten", |g, _k, a: Un, b: Un| {
         let pp = g.p;
-        a.u8s().zip(b.u8s()).map(move |(x, y)| pp.inner(pp.pair(x, y))).flatten()
+        a.u8s().zip(b.u8s()).map(move |(x, y)| pp.inner_fl(pp.pair(x, y))).flatten()
     });
     shape2!(v, "3/take(zip(a,flat_map(b)))", fused, "zip", |g, _k, a: Un, b: Un|
         apply!(take, a.u8s().zip(apply!(flat_map, b.u8s(), g.q)), g.p));
